@@ -200,7 +200,8 @@ def hashseed_search(tier, seed, shard, nshards, stats):
     ks = hashseed.seeds_for(verif_seed, 8 if tier == "quick" else 64)
     total = 300 if tier == "quick" else 2000
     n = (total + nshards - 1) // nshards
-    cases = _collect(_compete_case(tier), n, seed)
+    cases = _collect(st.one_of(_compete_case(tier), _compete_case(tier), _compete_case(tier), _width_case(tier)),
+                     n, seed)
     if shard == 0:
         stats.extra["hashseeds"] = len(ks)
     batch_size = 60
@@ -218,7 +219,7 @@ def hashseed_search(tier, seed, shard, nshards, stats):
                 stats.evaluations += 1
                 stats.failure = (wrapped, v.msg, v.details)
                 return
-            nt = order_sensitive(case)
+            nt = bool(case.get("width")) or order_sensitive(case)
             stats.note(wrapped, {"nontrivial": nt, "key": _key(case),
                                  "labels": ["order-sensitive" if nt else "order-insensitive", "entry=" + case["entry"]] +
                                  ["compete:" + c for c in case.get("compete", [])]})
@@ -251,6 +252,18 @@ def check_order(case):
     if out != again:
         raise Violation("two fresh cleaners produce different output for the same content and configuration",
                         first=out, second=again, **details)
+    if entry == "list" and case.get("allowlist") is not None:
+        # callers hand every cleaning of a spec the *same* allow-list object (it comes out of the filter
+        # registry's cache): the result must not depend on how often that object was used before
+        shared = dict(case["allowlist"])
+        kw = dict(no_obfuscate=list(case.get("no_obfuscate") or []), no_redact=bool(case.get("no_redact")))
+        first = c08.build_cleaner(case).clean_content(list(lines), allowlist=shared, **kw)
+        second = c08.build_cleaner(case).clean_content(list(lines), allowlist=shared, **kw)
+        if first != out or second != out or shared != case["allowlist"]:
+            raise Violation("cleaning the same content twice with the same allow-list object gives different "
+                            "results (or the caller's allow-list was modified)", first=first, second=second,
+                            allowlist_after=shared, **details)
+        labels.add("shared-allowlist-object")
     # (2) order and derivation
     syms = []
     for o in out:
@@ -494,6 +507,18 @@ def _compete_case(draw, tier, for_order=False):
     return {"fqdn": w["fqdn"], "obf": obf, "keywords": kws, "patterns": patterns, "no_obfuscate": no_obf,
             "no_redact": no_red, "allowlist": allow, "entry": entry, "width": False, "final_newline": True,
             "lines": lines, "compete": sorted(set(compete + labs))}
+
+
+@st.composite
+def _width_case(draw, tier):
+    """netstat-shaped lines cleaned in width-preserving mode (the netstat_-neopa spec): two addresses per
+    line, often of equal textual length, so the order in which substitutes are issued matters"""
+    w = draw(tg.world())
+    lines = draw(tg.content(w, max_lines=4, netstat=True))
+    return {"fqdn": w["fqdn"], "obf": dict(ALL_ON), "keywords": w["keywords"], "patterns": None,
+            "no_obfuscate": [], "no_redact": False, "allowlist": None,
+            "entry": draw(st.sampled_from(["list", "file", "write"])), "width": True, "final_newline": True,
+            "lines": lines, "compete": ["width-mode"]}
 
 
 def strat_order(tier):
